@@ -47,6 +47,7 @@ type c15dev struct {
 	gotLength uint64
 	written   []byte // what the device put in the buffer
 	bufSize   int
+	setLength *uint64 // when set: the device overwrites the request's Length field with it
 }
 
 func (d *c15dev) Open(string) error { return nil }
@@ -116,6 +117,9 @@ func (d *c15dev) Ioctl(cmd uintptr, arg any) (uintptr, error) {
 		}
 		h.Status = d.status
 		h.OutLen = d.outLen
+		if d.setLength != nil {
+			a.Length = *d.setLength
+		}
 		d.written = append([]byte(nil), h.Data[:]...)
 		return d.qResult, nil
 	}
@@ -237,6 +241,41 @@ func runC15(r *mc.Run) {
 		r.Eval(id, i != 0, "device:"+fmt.Sprint(wantOK)+"/"+out)
 	})
 	r.SectionDone(mc.Section{Name: "device-product", Evaluations: int64(done), Exhaustive: done == len(combos)})
+
+	// the device also owns the request structure it is handed: it may leave another value in its Length field. What the
+	// caller gets is decided by OutLen and the buffer the library allocated, as before
+	{
+		lengths := []uint64{0, 1, uint64(len(quote)), uint64(bufSize), uint64(bufSize) + 1, 1 << 20, 1 << 32, ^uint64(0)}
+		ols := append(append([]uint32{}, outLens...), 16385, 20480, 1<<20)
+		for _, ln := range lengths {
+			for _, ol := range ols {
+				for _, st := range []uint64{0, 0x8000000000000000} {
+					ln, id := ln, fmt.Sprintf("device/length-rewritten=%d,outlen=%d,st=%#x", ln, ol, st)
+					if !r.Want(id) {
+						continue
+					}
+					d := &c15dev{repBytes: repA, status: st, outLen: ol, quote: quote, setLength: &ln}
+					var got []byte
+					var err error
+					func() { defer world.Recover(&err); got, err = client.GetRawQuote(d, rds[1]) }()
+					wantOK := st == 0 && ol > 0 && int(ol) <= bufSize
+					out := verdict(err)
+					switch {
+					case world.IsPanic(err):
+						r.Violate("device:panic:"+crashSite(err), id, "GetRawQuote crashes: "+errStr(err), nil)
+						out = "panic"
+					case wantOK && (err != nil || !bytes.Equal(got, d.written[:ol])):
+						r.Violate("device:length-rewritten:valid-exchange-refused", id, "a valid exchange (status 0, OutLen within the buffer) does not return the first OutLen bytes: "+errStr(err), nil)
+						out = "refused!"
+					case !wantOK && err == nil:
+						r.Violate("device:length-rewritten:invalid-exchange-accepted", id, "an exchange with a bad status / OutLen is reported as success", nil)
+						out = "accept!"
+					}
+					r.Eval(id, true, "device-length:"+out)
+				}
+			}
+		}
+	}
 
 	// two-call histories: what the first caller got must not change when a later request is made
 	{
